@@ -27,7 +27,7 @@ MANIFEST = {
 }
 
 REQUIRED = ["KV.C11.out_sublist", "KV.C11.header_counts", "KV.C11.kept_iff_single", "KV.C11.copy_identity",
-            "KV.C11.kept_iff_union", "KV.C11.kept_iff_multi", "KV.C11.out_sublist_binary", "KV.C11.out_sublist_multiple", "KV.C11.header_counts_counter", "KV.C11.phrase_sound", "KV.C11.phrase_sound_multiple", "KV.C11.phrase_sound_union",
+            "KV.C11.kept_iff_union", "KV.C11.kept_iff_multi", "KV.C11.out_sublist_binary", "KV.C11.out_sublist_multiple", "KV.C11.header_counts_counter", "KV.C11.phrase_sound", "KV.C11.phrase_sound_max_order", "KV.C11.phrase_sound_multiple", "KV.C11.phrase_sound_union",
             "KV.C11.context_option", "KV.C11.decode_equiv"]
 
 
@@ -192,7 +192,9 @@ def phrase_case(ctx, env, rng):
 
 
 def run(ctx):
-    problems, consts = flow.proof_phase(ctx, "C11", required=REQUIRED, drivers=["drv_C11"])
+    problems, consts = flow.proof_phase(ctx, "C11", probe="probe_C11.cc", required=REQUIRED, drivers=["drv_C11"])
+    if consts.get("kenlmMaxOrder"):
+        G.KENLM_MAX_ORDER = int(consts["kenlmMaxOrder"])
     ok, bdir, lg = repo.build("tools", targets=["filter", "query"])
     if not ok:
         problems.append(lg)
